@@ -89,6 +89,9 @@ func runC08(r *Report, tier string) {
 					for _, a := range u.Args {
 						check(a)
 					}
+				case "gate":
+					check(u.Args[1])
+					check(u.Args[2])
 				case "res":
 					if u.S == "0" && u.Args[0].Op == "call" && u.Args[0].S == "invoke:cbor.EncMode.Marshal" {
 						if g, isM := P.isModeLoad(u.Args[0].Args[0], true); isM && g == encGlobal {
